@@ -38,24 +38,23 @@ def tree_inst(shape, alg="KSI_HASHALG_SHA1", refuse=-1, maxmode=0, label=None, s
     lab = label or ("n%d_%s%s%s%s" % (n, shape, "_s256" if "256" in alg else "", "_r%d" % refuse if refuse >= 0 else "", "_m%d" % maxmode if maxmode else ""))
     return {"label": lab, "defines": d}
 
-h1_quick = [tree_inst("h"), tree_inst("hh"), tree_inst("mh"), tree_inst("hhh"), tree_inst("hmh"),
-            tree_inst("hhhh"), tree_inst("hhmh", alg="KSI_HASHALG_SHA2_256"), tree_inst("hhhhh")]
-h1_thorough = h1_quick + [tree_inst("hmhhm"), tree_inst("hhhhhh"), tree_inst("hhhhhhh"), tree_inst("hhhhhhhh"),
+h1_quick = [tree_inst("h"), tree_inst("hh"), tree_inst("mh"), tree_inst("hmh"), tree_inst("hhmh", alg="KSI_HASHALG_SHA2_256")]
+h1_thorough = h1_quick + [tree_inst("hhh"), tree_inst("hhhh"), tree_inst("hhhhh"), tree_inst("hmhhm"), tree_inst("hhhhhh"), tree_inst("hhhhhhh"), tree_inst("hhhhhhhh"),
                           tree_inst("hhhhhh", alg="KSI_HASHALG_SHA2_256"), tree_inst("mhmhmhmh")]
 # H-2a: symbolic levels, stop after the refused add.  Odd position + no limit = carry overflow (position 3: carry depth 0 or 1)
 h2a_quick = [tree_inst("hh", refuse=1, maxmode=1, stop=True), tree_inst("mh", refuse=1, maxmode=0, stop=True), tree_inst("hhh", refuse=2, maxmode=2, stop=True),
-             tree_inst("hhhh", refuse=3, maxmode=1, stop=True), tree_inst("hhmh", refuse=3, maxmode=0, stop=True)]
-h2a_thorough = h2a_quick + [tree_inst("hhhhh", refuse=4, maxmode=2, stop=True), tree_inst("hhhhhh", refuse=5, maxmode=1, stop=True),
+             tree_inst("hhhh", refuse=3, maxmode=1, stop=True)]
+h2a_thorough = h2a_quick + [tree_inst("hhmh", refuse=3, maxmode=0, stop=True), tree_inst("hhhhh", refuse=4, maxmode=2, stop=True), tree_inst("hhhhhh", refuse=5, maxmode=1, stop=True),
                             tree_inst("hhhhhhhh", refuse=7, maxmode=1, stop=True)]
 # H-2b: concrete levels; what happens after the refusal
 h2b_quick = [tree_inst("hhh", refuse=1, maxmode=1, levels=[0, 255, 0], wit=["CARRY"], label="l_0_255r_0"),
              tree_inst("hhhh", refuse=3, maxmode=1, levels=[254, 0, 0, 0], close_overflow=True, wit=["CARRY"], label="l_254_0_0_0r_carry1"),
              tree_inst("hhhhh", refuse=4, maxval=2, levels=[0, 0, 0, 0, 0], wit=["LIMIT"], label="l_00000r_max2"),
-             tree_inst("hmhh", refuse=2, maxval=3, levels=[0, 0, 7, 0], wit=["LIMIT"], label="l_hm_7r_h_max3"),
-             tree_inst("hhhhhhhh", refuse=7, maxmode=1, levels=[253, 0, 0, 0, 0, 0, 0, 0], close_overflow=True, wit=["CARRY"], label="l_253_0x6_0r_carry2")]
-h2b_thorough = h2b_quick + [tree_inst("hhhhhh", refuse=3, maxmode=1, levels=[3, 2, 255, 255, 1, 0], close_overflow=False, wit=["CARRY"], label="l_3_2_255_255r_1_0")]
+             tree_inst("hmhh", refuse=2, maxval=3, levels=[0, 0, 7, 0], wit=["LIMIT"], label="l_hm_7r_h_max3")]
+h2b_thorough = h2b_quick + [tree_inst("hhhhhhhh", refuse=7, maxmode=1, levels=[253, 0, 0, 0, 0, 0, 0, 0], close_overflow=True, wit=["CARRY"], label="l_253_0x6_0r_carry2"),
+                            tree_inst("hhhhhh", refuse=3, maxmode=1, levels=[3, 2, 255, 255, 1, 0], close_overflow=False, wit=["CARRY"], label="l_3_2_255_255r_1_0")]
 common = {"src": "h1_tree.c", "env": ENV, "tus": TUS, "unwind": 6,
-          "unwindset": ["KSI_TreeBuilder_close.0:257", "calculateHighestLevel.0:257"],
+          "unwindset": ["KSI_TreeBuilder_close.0:257", "calculateHighestLevel.0:257", "insertNode:6", "getHashChainLinks:6", "KSI_TreeNode_free:6"],
           "cbmc_flags": FS, "restrict_fp": RESTRICT, "max_replays": 2, "object_bits": 12, "mem_gb": 8, "timeout": 600, "solver": "kissat",
           "functions": ["KSI_TreeBuilder_new", "KSI_TreeBuilder_addDataHash", "KSI_TreeBuilder_addMetaData", "addLeaf", "processAndInsertNode",
                         "insertNode", "KSI_TreeNode_join", "joinHashes", "KSI_DataHasher_addTreeNode", "KSI_TreeNode_new", "calculateHighestLevel",
